@@ -1261,3 +1261,18 @@ def pow_axioms(terms):
 
 def zabs(t):
     return z3.If(t >= 0, t, -t)
+
+
+import contextlib
+
+
+@contextlib.contextmanager
+def scratch():
+    """a context in which oracle terms (sqrt, pow) can be built outside an exploration; its .side holds their definitions"""
+    prev = Ctx.cur
+    c = Ctx([])
+    Ctx.cur = c
+    try:
+        yield c
+    finally:
+        Ctx.cur = prev
